@@ -323,32 +323,54 @@ pub struct SparseStream {
 
 pub const SYN_MAGIC: u32 = 0x5359_4E21; // "SYN!"
 
-/// Build the literal bytes of a synthetic payload (used for small ones and for verifying).
+/// Seed of the filler shared by all synthetic payloads (bytes 16.. do not depend on the
+/// payload's own seed, so large samples can be produced by memcpy from one master buffer).
+pub const SYN_FILL: u64 = 0x5EED_F111_0000_0001;
+pub const SYN_MASTER_LEN: usize = 80 << 20;
+
+static MASTER: std::sync::OnceLock<Vec<u8>> = std::sync::OnceLock::new();
+
+fn master() -> &'static [u8] {
+    MASTER.get_or_init(|| {
+        let mut v = Vec::with_capacity(SYN_MASTER_LEN);
+        for i in 0..SYN_MASTER_LEN {
+            v.push(fill_byte(SYN_FILL, i as u64));
+        }
+        v
+    })
+}
+
+fn syn_header(seed: u64, len: u64) -> [u8; 16] {
+    let mut hdr = [0u8; 16];
+    hdr[..4].copy_from_slice(&SYN_MAGIC.to_be_bytes());
+    hdr[4..12].copy_from_slice(&seed.to_be_bytes());
+    hdr[12..16].copy_from_slice(&(len as u32).to_be_bytes());
+    hdr
+}
+
+/// Build the literal bytes of a synthetic payload: 16-byte tag (magic, seed, length) followed
+/// by the shared filler.
 pub fn synth_payload(seed: u64, len: usize) -> Vec<u8> {
-    let mut v = Vec::with_capacity(len);
-    let mut hdr = Vec::with_capacity(16);
-    hdr.extend_from_slice(&SYN_MAGIC.to_be_bytes());
-    hdr.extend_from_slice(&seed.to_be_bytes());
-    hdr.extend_from_slice(&(len as u32).to_be_bytes());
-    for i in 0..len {
-        if i < 16 {
-            v.push(hdr[i]);
-        } else {
-            v.push(fill_byte(seed, i as u64));
+    assert!(len >= 16);
+    let mut v;
+    if len <= SYN_MASTER_LEN {
+        v = master()[..len].to_vec();
+    } else {
+        v = Vec::with_capacity(len);
+        v.extend_from_slice(master());
+        for i in SYN_MASTER_LEN..len {
+            v.push(fill_byte(SYN_FILL, i as u64));
         }
     }
+    v[..16].copy_from_slice(&syn_header(seed, len as u64));
     v
 }
 
 pub fn synth_byte(seed: u64, len: u64, i: u64) -> u8 {
     if i < 16 {
-        let mut hdr = [0u8; 16];
-        hdr[..4].copy_from_slice(&SYN_MAGIC.to_be_bytes());
-        hdr[4..12].copy_from_slice(&seed.to_be_bytes());
-        hdr[12..16].copy_from_slice(&(len as u32).to_be_bytes());
-        hdr[i as usize]
+        syn_header(seed, len)[i as usize]
     } else {
-        fill_byte(seed, i)
+        fill_byte(SYN_FILL, i)
     }
 }
 
@@ -475,8 +497,21 @@ impl SparseStream {
                             .copy_from_slice(&v[(es - *s) as usize..(ee - *s) as usize]);
                     }
                     Extent::Fill { seed, len } => {
-                        for p in es..ee {
-                            out[(p - start) as usize] = synth_byte(*seed, *len, p - *s);
+                        let a = (es - *s) as usize;
+                        let b = (ee - *s) as usize;
+                        let dst = &mut out[(es - start) as usize..(ee - start) as usize];
+                        if b <= SYN_MASTER_LEN {
+                            dst.copy_from_slice(&master()[a..b]);
+                            if a < 16 {
+                                let hdr = syn_header(*seed, *len);
+                                for i in a..b.min(16) {
+                                    dst[i - a] = hdr[i];
+                                }
+                            }
+                        } else {
+                            for p in es..ee {
+                                out[(p - start) as usize] = synth_byte(*seed, *len, p - *s);
+                            }
                         }
                     }
                 }
@@ -543,7 +578,7 @@ impl Write for SparseStream {
                 let mut ok = true;
                 let mut i = 16usize;
                 while i < plen {
-                    if p[i] != fill_byte(seed, i as u64) {
+                    if p[i] != fill_byte(SYN_FILL, i as u64) {
                         ok = false;
                         break;
                     }
